@@ -240,7 +240,18 @@ def fill(claim, na):
         "argparse type conversion, config-file defaults.",
         "DESIGN.md section 4, C19",
     )
-    for pid in ("C06",):
-        na(pid, NOT_YET)
+    claim(
+        "C06", "other",
+        "table-agreement analysis: the alias table of _detect_columns is extracted and its first-match-by-prefix semantics evaluated over every alias, documented header and header the library itself writes; def-use rules over _extract_data/_split_sweeps; constant-index bound rule; per-layout column/sign table; dispatch-table agreement",
+        "Decides the repository's own part of the file round trip: no alias is shadowed by an earlier quantity's alternative, every "
+        "documented alias is in the table, the headers written by to_dataframe (hence the CLI parse table) and by the instrument "
+        "parsers are read back as the quantity they hold with no sign marker; each quantity is read from its own column, gets the "
+        "decimal-comma conversion and its own sign marker, polar data become rect(|Z|, phase) with degree conversion; sweeps cut all "
+        "three lists at one index and never index past what the caller guarantees (a one-row table is a spectrum); mpt/P00/dfr negate "
+        "the imaginary column, i2b/dta do not; every extension selects the parser of its layout; csv separator/decimal fallbacks.",
+        "Not decided: pandas.read_csv's tokenising (separator sniffing, quoting), float formatting/round-off, the binary/spreadsheet "
+        "formats (.ids, .pssession, .xlsx/.ods), exact layout of instrument files beyond the columns used.",
+        "DESIGN.md section 4, C06",
+    )
     na("C10", "statistical behaviour of a heuristic pipeline (noise tracking, drift margin) on noisy inputs: quantifies over "
               "numerical outcomes of optimisers and random noise; no sound static argument bounds it")
